@@ -39,9 +39,23 @@ def v_toint(v):            # hawk_rtx_valtoint
     return 0               # char / byte char (converted like a one-character string), nil
 
 
+def flt_integral(vtext):
+    """POSIX / val_flt_to_str since 65b4a33: a floating-point value that is exactly an integer within the range of hawk_int_t is
+    converted as if by %d (-0.0 gives "0"); CONVFMT/OFMT apply to the other numbers only. Returns that integer, or None."""
+    from fractions import Fraction
+    try:
+        fr = Fraction(vtext)
+    except (ValueError, ZeroDivisionError):
+        return None
+    if fr.denominator == 1 and -2 ** 63 <= fr.numerator < 2 ** 63: return int(fr.numerator)
+    return None
+
+
 def v_tostr(v):            # hawk_rtx_valtooocstrdup with the default CONVFMT
     if v[0] == "i": return str(v[1])
-    if v[0] == "f": return "%.6g" % v[2]
+    if v[0] == "f":
+        iv = flt_integral(v[1])
+        return str(iv) if iv is not None else "%.6g" % v[2]
     if v[0] in ("s", "m"): return v[1]
     if v[0] in ("c", "y"): return v[1]
     return ""
@@ -634,7 +648,7 @@ def _wrappers_for(v, conv, is_star):
         ws += ["w_sp", "inline"]
     elif v[0] == "i" and abs(v[1]) < 2 ** 53:
         ws += ["w_num"]
-    elif v[0] == "f" and abs(v[2]) < 1e15 and float("%.6g" % v[2]) == v[2]:
+    elif v[0] == "f" and abs(v[2]) < 1e15 and float(v_tostr(v)) == v[2]:
         ws += ["w_num"]
     return ws
 
@@ -791,6 +805,10 @@ def _len_formats(quick):
     for k in (24, 25, 26, 27, 28, 29, 30, 250, 256):
         out.append(("%" + "-" * k + "9.3f", "1.5"))
         out.append(("%" + "+" * k + ".2e", "2.5"))
+    # integral values: the format must not matter; just outside the integer range it does again
+    out += [("%.2e", "1000000.0"), ("%.62f", "16777216.0"), ("%.3g", "-0.0"), ("%e", "1e+18"), ("%.61f", "3.0"), ("%20.3f", "-7.0"),
+            ("%.1f", "9223372036854775807.0"), ("%.1f", "-9223372036854775808.0"), ("%.1f", "9223372036854775808.0"), ("%.0f", "-9223372036854777856.0"),
+            ("%.3g", "1e+20"), ("%s", "2.0"), ("%d", "1e+15")]
     out += [("%.6g", "3.14159"), ("%.3g", "100000.0"), ("%d", "65.25"), ("%s", "0.25"), ("%c", "65.25"), ("%5.1f|%%", "2.5")]
     return out
 
@@ -808,6 +826,9 @@ def _c_text_of(exe, pairs):
         ro, _, _ = run_harness_par(exe, req, nproc=4)
         for k, o in zip(idx, ro):
             if o.startswith("C=") and o != "C=NA": res[k] = "".join(chr(x) for x in units(o[2:]))
+    for k, (f, v) in enumerate(pairs):          # an integral value in range: as if by %d, whatever the format is
+        iv = flt_integral(v)
+        if iv is not None: res[k] = str(iv)
     return res
 
 
@@ -874,9 +895,10 @@ def valtostr_api_check(ctx, exe):
         if T is None: continue
         # CONVFMT = f, OFMT = something else: the plain call must use CONVFMT, the PRINT call OFMT; then the other way round
         lines += ["G\tCONVFMT\t" + hx(f), "G\tOFMT\t" + hx("%.2e")]; exp += [None, None]
-        all_kinds("-", "f:" + v, T, "CONVFMT=%r, value %s" % (f, v), k)
+        farg = "f:%s:%s" % (v, "x" if flt_integral(v) is None else str(flt_integral(v)))     # the annotation tells the Lean driver whether the value is integral
+        all_kinds("-", farg, T, "CONVFMT=%r, value %s" % (f, v), k)
         lines += ["G\tCONVFMT\t" + hx("%.3g"), "G\tOFMT\t" + hx(f)]; exp += [None, None]
-        all_kinds("p", "f:" + v, T, "OFMT=%r (HAWK_RTX_VALTOSTR_PRINT), value %s" % (f, v), k + 1)
+        all_kinds("p", farg, T, "OFMT=%r (HAWK_RTX_VALTOSTR_PRINT), value %s" % (f, v), k + 1)
         k += 2
     lines += ["G\tCONVFMT\t" + hx("%.6g"), "G\tOFMT\t" + hx("%.6g")]; exp += [None, None]
     for v in INT_TEXT_VALUES:
@@ -937,7 +959,10 @@ def conversion_consumers(ctx, libdir, exe):
     printf %s, print through OFMT - with CONVFMT/OFMT texts of every boundary length. Expected from snprintf."""
     hawk = os.path.join(libdir, "hawk")
     quick = ctx.tier == "quick"
-    lf = [(f, v) for f, v in _len_formats(quick) if "%%" not in f and "|" not in f]
+    def exact_literal(v):          # hawk's own reader of source literals is not exact for 19-digit literals (2^63 reads as 2^63+512; the number reader is not this property's matter)
+        digits = v.lower().split("e")[0].replace("-", "").replace("+", "").replace(".", "").strip("0")
+        return len(digits) <= 15
+    lf = [(f, v) for f, v in _len_formats(quick) if "%%" not in f and "|" not in f and exact_literal(v)]
     ctext = _c_text_of(exe, lf)
     stmts, expect, descs = [], [], []        # one expected output line per entry of expect
 
@@ -1050,7 +1075,8 @@ def convfmt_checks(ctx, libdir, exe):
         if e is None: continue
         f, v = e
         fv = float(v)
-        mcases.append("\t".join(["C", hx(f), "-", "-", "f:%s:%d:%s" % (v, int(fv), hx("%.6g" % fv))]))
+        iv = flt_integral(v)
+        mcases.append("\t".join(["C", hx(f), "-", "-", "f:%s:%d:%s:%s" % (v, int(fv), hx(v_tostr(("f", v, fv))), "x" if iv is None else str(iv))]))
     mout = run_driver_par(ctx, mcases, nproc=1)
     mi = 0
     rq = []
@@ -1071,13 +1097,16 @@ def convfmt_checks(ctx, libdir, exe):
     creq, cexp = [], []
     for (f, v), hl, ml in rq:
         k = max(f.rfind(c) for c in FLTCONV)
+        if flt_integral(v) is not None:           # integral: as if by %d, whatever CONVFMT says (also "%d", "%s", "%y" ...)
+            creq.append("R\t%s\t%s" % (hx("%.0Lf"), str(flt_integral(v)))); cexp.append(((f, v), hl)); continue
         if k < 0 or any(ch in f for ch in "sdxcy*"): continue
         creq.append("R\t%s\t%s" % (hx(f[:k] + "L" + f[k:].replace("%%", "%%")), v)); cexp.append(((f, v), hl))
     co, _, _ = run_harness_par(exe, creq, nproc=1)
     oracle_hit = False
     for ((f, v), hl), cl in zip(cexp, co):
         if hl[2:] != cl[2:]:
-            ctx.problem("impl", "CONVFMT=%r; (%s \"\") gives %s but snprintf gives %s" % (f, v, show(units(hl[2:])) if not hl[2:].startswith("!") else hl[2:], show(units(cl[2:]))),
+            ctx.problem("impl", "CONVFMT=%r; (%s \"\") gives %s but %s gives %s" % (f, v, show(units(hl[2:])) if not hl[2:].startswith("!") else hl[2:],
+                        "the integral rule (as if by %d)" if flt_integral(v) is not None else "snprintf", show(units(cl[2:]))),
                         "# CONVFMT conversion versus snprintf\nG\tCONVFMT\t%s\nV\tf:%s\n" % (hx(f), v), found_input=True)
             oracle_hit = True
             break
@@ -1111,7 +1140,8 @@ def convfmt_checks(ctx, libdir, exe):
             if v == "-0.0": continue
             stmts.append("print %s;" % v)
             k = max(f.rfind(c) for c in FLTCONV)
-            exp_req.append("R\t%s\t%s" % (hx(f[:k] + "L" + f[k:]), v))
+            if flt_integral(v) is not None: exp_req.append("R\t%s\t%s" % (hx("%.0Lf"), str(flt_integral(v))))
+            else: exp_req.append("R\t%s\t%s" % (hx(f[:k] + "L" + f[k:]), v))
         stmts.append("print 42; print -7; print 100000 * 100000; x = 17; print x \"\";")
     prog = "BEGIN { " + " ".join(stmts) + " }"
     rc, out, err = C.sh(["timeout", "-s", "KILL", "60", hawk, prog], timeout=90, env=C.ASAN_ENV)
